@@ -10,6 +10,7 @@ import (
 	"io"
 
 	"github.com/dtn7/cboring"
+	"github.com/hashicorp/go-multierror"
 )
 
 // DTLSRPeerData contains a peer's connection data
@@ -62,8 +63,17 @@ func (dtlsrb *DTLSRBlock) BlockTypeName() string {
 	return "DTLSR Block"
 }
 
-func (dtlsrb *DTLSRBlock) CheckValid() error {
-	return nil
+func (dtlsrb *DTLSRBlock) CheckValid() (errs error) {
+	// MarshalCbor refuses invalid endpoint IDs, so they must not be accepted either.
+	if err := dtlsrb.ID.CheckValid(); err != nil {
+		errs = multierror.Append(errs, err)
+	}
+	for peerID := range dtlsrb.Peers {
+		if err := peerID.CheckValid(); err != nil {
+			errs = multierror.Append(errs, err)
+		}
+	}
+	return
 }
 
 func (dtlsrb *DTLSRBlock) MarshalCbor(w io.Writer) error {
